@@ -911,27 +911,38 @@ theorem compile_total (p q : List CInstr) :
   | ok m => exact Or.inl ⟨m, rfl⟩
   | error e => exact Or.inr ⟨e, rfl⟩
 
-/-- `compile_never_panics_partial` — a program whose immediates fit 32 bits never reaches the
-`panic` outcome of the model: every branch of every operation ends in `ok` or an error VALUE.
-PARTIAL: the hypothesis cannot be dropped on the pinned tree — the guard of `IntoBytes(n)` on a
-native compares `n as u32` (see `compile_panics_beyond_u32`, a known finding); with the guard
-computed on `usize` the hypothesis disappears. The seeded change C16-1 (first arm of
-`into_bytes_incircuit` removed) is the same theorem failing for `n = 33`: the harness then sees a
-panic where the model says `unsupported`. -/
-theorem compile_never_panics_partial (prog : List CInstr) (h : ∀ i ∈ prog, i.num < 2 ^ 32) :
-    compile prog ≠ .error .panic :=
-  compileFrom_ne_panic prog [] h
+/-- `compile_never_panics` — NO program reaches the `panic` outcome of the model: every branch of
+every operation ends in `ok` or an error VALUE, for every immediate (full strength since the repair
+`af7577a`: the guard of `IntoBytes(n)` on a native compares `n` itself, not `n as u32`, so no `n`
+above the 32 bytes of a field element reaches `bytes[n..]` / the decomposition chip). The seeded
+change C16-1 (first arm of `into_bytes_incircuit` removed) makes this theorem fail for `n = 33`:
+the harness then sees a panic where the model says `unsupported`. -/
+theorem compile_never_panics (prog : List CInstr) : compile prog ≠ .error .panic :=
+  compileFrom_ne_panic prog []
 
 example : compile [⟨0, some ⟨2, none⟩, 0, [], [[120]]⟩, ⟨12, none, 33, [⟨[120], none⟩], [[98]]⟩] =
     .error .unsupported := by decide +kernel
 
-/-- Known finding, mirrored: `Load(Native) x; IntoBytes(2^32) x` — `n as u32 = 0` passes the guard
-of `into_bytes_incircuit` and the decomposition chip panics (`assigned_to_le_bytes`); with a
-constant operand `bytes[n..]` of `IrValue::into_bytes` panics. -/
-theorem compile_panics_beyond_u32 :
-    compile [⟨0, some ⟨2, none⟩, 0, [], [[120]]⟩, ⟨12, none, 2 ^ 32, [⟨[120], none⟩], [[98]]⟩] = .error .panic ∧
-    compile [⟨12, none, 2 ^ 32 + 1, [⟨[55], some (.native (some 7))⟩], [[98]]⟩] = .error .panic := by
+/-- Regression of the repaired finding: `IntoBytes(2^32)`, `IntoBytes(2^32 + 1)` on a loaded /
+constant native are rejected with an error value. -/
+theorem compile_rejects_beyond_u32 :
+    compile [⟨0, some ⟨2, none⟩, 0, [], [[120]]⟩, ⟨12, none, 2 ^ 32, [⟨[120], none⟩], [[98]]⟩] = .error .unsupported ∧
+    compile [⟨12, none, 2 ^ 32 + 1, [⟨[55], some (.native (some 7))⟩], [[98]]⟩] = .error .unsupported := by
   decide +kernel
+
+/-- The PINNED guard (`n as u32 > 32`, before `af7577a`) let `n = 2^32 + j`, `j ≤ 32`, through to
+the panic; the repaired guard rejects every `n > 32`. -/
+theorem pinned_into_bytes_guard_truncated (j : Nat) (hj : j ≤ 32) :
+    intoBytesInPinned (2 ^ 32 + j) = .error .panic ∧
+    intoBytesIn (2 ^ 32 + j) (.native none) = .error .unsupported := by
+  have hnb := nativeBytes_eq
+  have h1 : asU32 (2 ^ 32 + j) = j := by unfold asU32; omega
+  constructor
+  · unfold intoBytesInPinned
+    rw [h1, hnb, if_neg (by omega), if_pos (by omega)]
+  · unfold intoBytesIn
+    simp only [hnb]
+    rw [if_pos (by omega)]
 
 /-- The limit `IntoBytes(n)` enforces on a native whose value is UNKNOWN (a loaded witness at
 compile time) is exactly the limit of the off-circuit side: the unknown path accepts `n` iff
@@ -946,32 +957,26 @@ theorem into_bytes_unknown_limit_eq_offcircuit (n : Nat) :
     simp only [hnb]
     constructor
     · intro h
-      split at h
-      · simp at h
-      · split at h
-        · simp at h
-        · omega
+      by_cases hn : n ≤ 32
+      · exact hn
+      · simp [Nat.lt_of_not_le hn] at h
     · intro h
-      have h1 : asU32 n = n := Nat.mod_eq_of_lt (by omega)
-      simp [h1, Nat.not_lt.mpr h]
+      simp [Nat.not_lt.mpr h]
   · constructor
     · rintro ⟨v, _, h⟩
       unfold intoBytesNativeOff at h
       simp only [hnb] at h
-      split at h
-      · simp at h
-      · split at h
-        · simp at h
-        · omega
+      by_cases hn : n ≤ 32
+      · exact hn
+      · simp [Nat.lt_of_not_le hn] at h
     · intro h
       refine ⟨0, by decide +kernel, ?_⟩
-      have h1 : asU32 n = n := Nat.mod_eq_of_lt (by omega)
       unfold intoBytesNativeOff
-      simp [h1, hnb, Nat.not_lt.mpr h]
+      simp [hnb, Nat.not_lt.mpr h]
 
 /-- On a KNOWN native (a constant) the in-circuit side accepts exactly what the off-circuit
-conversion accepts, for every `n` and every value: same result, and an error (or the panic of the
-truncated guard) on one side iff on the other. -/
+conversion accepts, for every `n` and every value: same result, and an error on one side iff on
+the other. -/
 theorem into_bytes_known_eq_offcircuit (n v : Nat) (t : CTy) :
     intoBytesIn n (.native (some v)) = .ok t ↔ intoBytesNativeOff n v = .ok t := by
   unfold intoBytesIn
@@ -986,9 +991,8 @@ theorem into_bytes_known_eq_offcircuit (n v : Nat) (t : CTy) :
 theorem into_bytes_known_spec (n v : Nat) (hn : n ≤ 32) :
     intoBytesIn n (.native (some v)) = .ok (.bytes n) ↔ v < 256 ^ n := by
   have hnb := nativeBytes_eq
-  have h1 : asU32 n = n := Nat.mod_eq_of_lt (by omega)
   unfold intoBytesIn intoBytesNativeOff
-  simp only [h1, hnb, Nat.not_lt.mpr hn, if_false]
+  simp only [hnb, Nat.not_lt.mpr hn, if_false]
   have hp : 0 < 256 ^ n := Nat.pow_pos (by omega)
   constructor
   · intro h
